@@ -258,9 +258,9 @@ impl Property for C13 {
 
     fn budget(tier: Tier) -> u64 {
         if cfg!(lzma_rust2_verif_shuttle) {
-            tier.pick(1200, 15_000)
+            tier.pick(1200, 6000)
         } else {
-            tier.pick(12_000, 150_000)
+            tier.pick(12_000, 40_000)
         }
     }
 
